@@ -35,3 +35,8 @@ claim("C06", "exploration", E1,
       "Configuration sweep through the public API: num_tune 0..=60 and {100,150,400[,1000,2000]} x six presets x step-size methods x jitter x window options; per draw: tuning flag, transformation index frozen from the start of the final window, constant step_size_bar and jitter band after warmup. The warmup-schedule automaton itself (all good/rejected/divergent histories) is explored under C09.",
       "Trusted: the start of the final window is re-derived from the documented options (num_tune - floor(step_size_window*num_tune); flow: floor(num_tune*(1-step_size_window))); ChaCha8 seeds are fixed configuration values; one 3-d Gaussian target.",
       "bounded-exhaustive configuration enumeration (every num_tune 0..60 x presets x methods) on the real chains", "4/C06")
+
+claim("C16", "exploration", E1,
+      "Exhaustive over the option lattice (six presets x 2^4 store flags x store_mass_matrix x use_grad_based_estimate x dims 0/1/2[/5]) x divergence placements (every single draw and every pair of draws of a 12-draw history): names and order, value variant vs declared type, length vs declared dims, presence rules for non-event / divergence / transformation-update statistics, draw counter and chain id.",
+      "Trusted: the harness' reading of the Storable contract; divergences are injected through the density (recoverable error / huge logp drop); one diagonal Gaussian target per dimension.",
+      "bounded-exhaustive enumeration of the option lattice x fault placements on real chains", "4/C16")
